@@ -136,6 +136,21 @@ pub fn eval(case: &Case, st: &mut Stats) -> Result<(), String> {
     })?;
     ensure_eq!(g.input_size(), data.len() as u64, "input_size()");
     check_generator_output(&g, &r, "update(all)")?;
+    // the same input through a generator that had an earlier life (declared size, finalised, reset)
+    {
+        let first = &data[..data.len().min(13 + data.len() / 97)];
+        let mut g2 = Generator::new();
+        let _ = must("set_fixed_input_size", || g2.set_fixed_input_size(first.len() as u64))?;
+        must("update", || {
+            g2.update(first);
+        })?;
+        let _ = must("finalize", || g2.finalize())?;
+        must("reset", || g2.reset())?;
+        must("update", || {
+            g2.update(&data);
+        })?;
+        check_generator_output(&g2, &r, "re-used generator (after reset)")?;
+    }
     let hb = must("hash_buf", || ssdeep::hash_buf(&data))?;
     match hb {
         Ok(h) => ensure_eq!(h.to_string(), format_hash(r.log, &r.bh1, &r.bh2_trunc), "hash_buf()"),
